@@ -161,7 +161,7 @@ func run(r *core.Run) {
 		r.Extra("seeds", sl)
 		r.Extra("seed_classes", map[string]int{"whole_file_clean": cls[0], "embedded_range": cls[1], "whole_file_with_error": cls[2]})
 		r.Assume("every case starts from the interpreter state (options stack) that the real entry point sets up, obtained by running fq's _main once; bytes are handed to decode() as an in-memory binary, the process-like re-run of faulting cases reads them as a file through open")
-		r.Assume("a case without verdict after " + w.stepCPU.String() + " cpu or with a live heap over 8 GiB is inconclusive (listed), never a violation; a single allocation that the 16 GiB address-space ceiling of the worker refuses kills the worker and IS a violation")
+		r.Assume(fmt.Sprintf("a case without verdict after %s cpu (%s wall) or with a live heap over %d MiB is inconclusive (listed), never a violation, and the worker replaces its process image to get rid of it; a single allocation that the 16 GiB address-space ceiling of the worker refuses kills the worker and IS a violation", w.stepCPU, w.stepWall, w.heapMax>>20))
 		r.Assume("seeds are the smallest corpus byte strings per format: whole files that decode cleanly, else byte ranges of embedded sub-trees (<= 64 KiB), else whole files decoding with an error; formats_without_seed only get the cross-format and empty-file cases")
 		r.Logf("formats=%d seeds=%d (%d bytes) without seed=%d grid=%d files=%d", len(formats), len(seeds), totalSeedBytes, len(noSeed), len(grid), nfiles)
 	}
@@ -179,6 +179,7 @@ func run(r *core.Run) {
 		}
 		if w.expired() {
 			cut = true
+			r.Logf("soft deadline reached in section %s at index %d", sec, i)
 			w.t.NotExh = append(w.t.NotExh, "deadline: the grid was applied to every seed only up to the recorded prefix (see completed_prefix)")
 			w.t.Counts[fmt.Sprintf("cut:%s:shard%02d", sec, r.ShardIdx)] = int64(ordinal) + 1 // +1: 0 means no cut
 			return
@@ -284,6 +285,7 @@ func run(r *core.Run) {
 		}
 	}
 	w.closeEvaluator()
+	r.Logf("enumeration finished")
 	if first {
 		r.Extra("cases_in_family", total)
 	}
